@@ -229,32 +229,29 @@ def Flags.has (fl : Flags) : Auto → Bool
   | .send => fl.allocSend
   | .sync => fl.allocSync
 
-mutual
-  /-- does the type implement the auto trait `a`?  (`fuel` bounds the unfolding of named structs) -/
-  def tyAuto (t : Table) (fl : Flags) (a : Auto) : Nat → Ty → Bool
-    | _, .alloc => fl.has a
-    | _, .prim => true
-    | _, .phantom => true
-    | _, .nonNull => false
-    | n, .cell ty => (match a with | .send => tyAuto t fl .send n ty | .sync => false)
-    | n, .mutex ty => tyAuto t fl .send n ty
-    | n, .vec ty => tyAuto t fl a n ty
-    | n, .manuallyDrop ty => tyAuto t fl a n ty
-    | n, .ref ty => tyAuto t fl .sync n ty
-    | n, .refMut ty => tyAuto t fl a n ty
-    | 0, .named _ => false
-    | n + 1, .named s => structAuto t fl a n s
-  def structAuto (t : Table) (fl : Flags) (a : Auto) (n : Nat) (s : String) : Bool :=
-    match t.autoImpls.find? (fun i => i.tr == a && i.ty == s) with
-    | some i => i.bounds.all fun (p, b) => if p == "A" then fl.has b else true
-    | none =>
-      match t.structs.find? (fun d => d.name == s) with
-      | some d => tysAuto t fl a n d.fields
-      | none => false
-  def tysAuto (t : Table) (fl : Flags) (a : Auto) (n : Nat) : List Ty → Bool
-    | [] => true
-    | ty :: tys => tyAuto t fl a n ty && tysAuto t fl a n tys
-end
+/-- does the type implement the auto trait `a`?  Structural in the fuel (every constructor costs one unit;
+    the handle types nest at most 6 deep) -/
+def tyAuto (t : Table) (fl : Flags) : Nat → Auto → Ty → Bool
+  | 0, _, _ => false
+  | n + 1, a, ty =>
+    match ty with
+    | .alloc => fl.has a
+    | .prim => true
+    | .phantom => true
+    | .nonNull => false
+    | .cell x => (match a with | .send => tyAuto t fl n .send x | .sync => false)
+    | .mutex x => tyAuto t fl n .send x
+    | .vec x => tyAuto t fl n a x
+    | .manuallyDrop x => tyAuto t fl n a x
+    | .ref x => tyAuto t fl n .sync x
+    | .refMut x => tyAuto t fl n a x
+    | .named s =>
+      match t.autoImpls.find? (fun i => i.tr == a && i.ty == s) with
+      | some i => i.bounds.all fun (p, b) => if p == "A" then fl.has b else true
+      | none =>
+        match t.structs.find? (fun d => d.name == s) with
+        | some d => d.fields.all fun f => tyAuto t fl n a f
+        | none => false
 
 def Entry.ty (e : Entry) : Ty :=
   match e.acc with
@@ -264,10 +261,10 @@ def Entry.ty (e : Entry) : Ty :=
 
 /-- may the entry be moved into another thread? -/
 def sendOK (t : Table) (fl : Flags) (e : Entry) : Bool :=
-  e.kind != .coll && tyAuto t fl .send 8 e.ty
+  e.kind != .coll && tyAuto t fl 16 .send e.ty
 /-- may `&entry` be shared with another thread? -/
 def shareOK (t : Table) (fl : Flags) (e : Entry) : Bool :=
-  e.kind != .coll && tyAuto t fl .sync 8 e.ty
+  e.kind != .coll && tyAuto t fl 16 .sync e.ty
 
 def Loan.depthOK (Γ : SEnv) (d : Nat) : Loan → Bool
   | .borrow v _ => match Γ.find v with
@@ -334,6 +331,11 @@ def checkStmt (t : Table) (fl : Flags) (Γ : SEnv) : Stmt → Except Rej SEnv
       match Γ.frames with
       | [] => .error .illformed
       | g :: rest => do
+        -- the implicit guard / reborrow of the call must still be intact (the receiver and its ancestors
+        -- were not touched inside the closure body)
+        match Γ.find g with
+        | none => throw .illformed
+        | some eg => if !eg.valid then throw .dead
         let ls := locals Γ
         -- the value handed out of the closure
         let r ← match ret with
